@@ -1,6 +1,7 @@
 package main
 
 import (
+	"sort"
 	"fmt"
 	"strings"
 
@@ -281,7 +282,19 @@ func (g *genState) populateReference(ref *dtpb.Reference) {
 	case 4:
 		ref.Reference = &dtpb.Reference_Uri{Uri: &dtpb.String{Value: "http://example.org/fhir/Patient/" + g.str("x")}}
 	default:
-		ref.Reference = &dtpb.Reference_PractitionerId{PractitionerId: &dtpb.ReferenceId{Value: g.str("pr")}}
+		// a typed reference to any resource type
+		var names []string
+		for f := range refOneofFields {
+			if f != "resource_id" && f != "domain_resource_id" && f != "metadata_resource_id" {
+				names = append(names, f)
+			}
+		}
+		sort.Strings(names)
+		rid := &dtpb.ReferenceId{Value: g.str("t")}
+		if g.r.intn(3) == 0 {
+			rid.History = &dtpb.Id{Value: "7"}
+		}
+		ref.ProtoReflect().Set(refOneofFields[pick(g.r, names)], protoreflect.ValueOfMessage(rid.ProtoReflect()))
 	}
 	if g.r.intn(3) == 0 {
 		ref.Display = &dtpb.String{Value: "display"}
